@@ -173,6 +173,21 @@ def run_config(ctx, cfg):
                 z = (c * x - y) + c
                 vc.check("(c*x - y) + c [%s]" % tag, ev(z) == c * x.val - y.val + c)
                 vc.check("-(x + c) * c [%s]" % tag, ev((-(x + c)) * c) == -(x.val + c) * c)
+                # a scalar on the LEFT of a composite operand (numpy scalars try their own arithmetic first: the operand
+                # must make them defer to the reflected operators, i.e. the result is an observable with the contract's value)
+                for form, node, want in (("c * (x + y)", lambda: c * (x + y), lambda: c * (x.val + y.val)),
+                                         ("c + (x - y)", lambda: c + (x - y), lambda: c + (x.val - y.val)),
+                                         ("c - (2 * x)", lambda: c - (2 * x), lambda: c - 2 * x.val),
+                                         ("c * (-x)", lambda: c * (-x), lambda: c * (-x.val)),
+                                         ("c * (x * 3)", lambda: c * (x * 3), lambda: c * (x.val * 3))):
+                    try:
+                        r = node()
+                        isobs = hasattr(r, "apply") and not isinstance(r, np.ndarray)
+                        vc.check("%s is an observable [%s]" % (form, tag), isobs)
+                        if isobs:
+                            vc.check("%s evaluates to the arithmetic on its parts [%s]" % (form, tag), ev(r) == want())
+                    except Exception as e:      # building a linear combination must not raise
+                        vc.check("%s can be built [%s]" % (form, tag), False, repr(e)[:120])
         vc.explore(run, "operators")
     else:
         def run():
